@@ -317,6 +317,18 @@ def np_tensordot(interp, name, args, kw, st, node):
     return fresh_arr(callterm(name, args, kw), None, _L(*args, *kw.values()))
 
 
+@reg("numpy.isin", "numpy.in1d")
+def np_isin(interp, name, args, kw, st, node):
+    b = bind(["element", "test_elements", "assume_unique", "invert"], args, kw)
+    x, y = arrv(b["element"]), arrv(b["test_elements"])
+    inv = b.get("invert")
+    flag = bool(inv is not None and inv.has_const and inv.const)
+    t = T("isin", x.term, y.term)
+    if flag:
+        t = T("invert", t)
+    return fresh_arr(t, shape(x), x.labels | y.labels, "bool")
+
+
 @reg("numpy.expand_dims")
 def np_expand_dims(interp, name, args, kw, st, node):
     b = bind(["a", "axis"], args, kw)
@@ -424,6 +436,18 @@ def _reduction(opname, dtype=None, index=False):
         x = arrv(b["a"])
         sh = shape(x)
         rank = len(sh) if sh is not None else None
+        whr = kw.get("where")
+        if whr is not None and whr.kind != "none" and not (whr.has_const and whr.const is True) and opname in ("amax", "amin", "sum", "any", "all", "prod"):
+            # a masked reduction: the entries outside the mask are replaced by `initial` (max / min)
+            # or by the neutral element
+            init = kw.get("initial")
+            neutral = {"sum": const(0), "any": const(False), "all": const(True), "prod": const(1)}.get(opname)
+            fill = init.term if (init is not None and init.kind != "none") else neutral
+            if fill is not None:
+                wv = arrv(whr)
+                x = fresh_arr(T("where3", wv.term, x.term, fill), sh, x.labels | wv.labels, x.extra if isinstance(x.extra, str) else None)
+                kw = {k: v for k, v in kw.items() if k not in ("where", "initial")}
+                b = bind(["a", "axis", "dtype", "out", "keepdims"], [x] + list(args[1:]), kw)
         src = merged_leading(interp, x)
         if src is not None and rank is not None and rank >= 2 and axis_of(b.get("axis"), rank) == rank - 1 and not any(k in kw for k in ("keepdims", "weights", "out", "dtype")):
             # a reduction along the last axis commutes with merging the leading axes
